@@ -5,5 +5,6 @@ CONSTANTS
   MaxAge = 5000
   WDecr = 100
   WFloor = 1000
+  CheckClassic = FALSE
 POSTCONDITION TraceAccepted
 CHECK_DEADLOCK FALSE
